@@ -314,7 +314,7 @@ def make_builder(flavour):
 def build_tree(recipe):
     """recipe = {"flavour": html|xml|xhtml, "markup": str | None, "nodes": [...] } -> BeautifulSoup"""
     e = E()
-    b = make_builder(recipe["flavour"])
+    b = builder_for(recipe["builder"]) if recipe.get("builder") else make_builder(recipe["flavour"])
     soup = e["bs4"].BeautifulSoup(recipe.get("markup") or "", builder=b)
 
     def mk(spec, parent):
@@ -1526,6 +1526,205 @@ def stream_history(ctx, batch, n):
                                 "<script>, rendered from the element, its string, its new parent and the root with 7 formatter arguments")
 
 
+# ---------------------------------------------------------------------------------------------------------------------
+# from the parse to the tree: builder configuration (sets/dicts) and the attribute dict of a start tag
+# ---------------------------------------------------------------------------------------------------------------------
+B_TAGS = ["div", "p", "b", "i", "span", "ul", "li", "td", "pre", "a"]
+B_VOID = ["br", "hr", "img"]
+B_KEYS = ["class", "id", "rel", "headers", "a", "b", "data-x", "accesskey"]
+B_VALS = ["", "v", "a b", " a  b\tc\n", "x y", "one", "a b c", "é ☃", None, "  ", "A B"]
+EET_VALUES = [["br", "hr", "img"], ["br"], [], None, ["br", "hr", "img", "p"], "default"]
+PWT_VALUES = [["pre", "textarea"], [], ["pre", "div"], ["p"], "default"]
+CLA_VALUES = [{"*": ["class", "accesskey"], "td": ["headers"], "a": ["rel"]}, {}, {"*": ["class"]}, {"p": ["a", "b"], "div": []},
+              {"*": [], "li": ["id"]}, None, "default"]
+DUP_VALUES = [None, "replace", "ignore"]
+
+
+def gen_raw(r, bcfg, depth=0, budget=None):
+    """a raw tree the tokenizer will report as generated: proper nesting, no adjacent/blank strings, void tags without contents"""
+    eet = bcfg["eet_effective"]
+    out, last_str = [], True
+    for _ in range(r.randint(1, 4)):
+        if budget[0] <= 0:
+            break
+        budget[0] -= 1
+        if not last_str and r.random() < 0.35:
+            out.append(["S", r.choice(["t", "x y", "é", "two words", "z9"])])
+            last_str = True
+            continue
+        name = r.choice(B_TAGS + B_VOID)
+        keys = [r.choice(B_KEYS) for _ in range(r.choice([0, 1, 2, 2, 3, 4]))]   # repeats on purpose
+        attrs = [[k, r.choice(B_VALS)] for k in keys]
+        void = eet is None or name in eet
+        kids = [] if (void or depth >= 3) else gen_raw(r, bcfg, depth + 1, budget)
+        out.append(["T", name, attrs, kids])
+        last_str = False
+    return out
+
+
+def raw_markup(nodes, eet):
+    out = []
+    for n in nodes:
+        if n[0] == "S":
+            out.append(n[1])
+            continue
+        _, name, attrs, kids = n
+        a = "".join(" " + k + ("" if v is None else '="' + v + '"') for k, v in attrs)
+        out.append(f"<{name}{a}>")
+        if not (eet is None or name in eet):
+            out.append(raw_markup(kids, eet) + f"</{name}>")
+    return "".join(out)
+
+
+def raw_tokens(nodes):
+    out = []
+    for n in nodes:
+        if n[0] == "S":
+            out.append(f"S 0 {ptok(n[1])}")
+            continue
+        _, name, attrs, kids = n
+        out.append(f"T {ptok(name)} {len(attrs)}")
+        for k, v in attrs:
+            out.append(f"{ptok(k)} {'N' if v is None else 'v' + ptok(v)}")
+        out.append(str(len(kids)))
+        out.append(raw_tokens(kids))
+    return " ".join(x for x in out if x)
+
+
+def builder_for(bspec):
+    """-> (real builder, effective values as the property reads them)"""
+    e = E()
+    kw = {}
+    if bspec["eet"] != "default":
+        kw["empty_element_tags"] = None if bspec["eet"] is None else set(bspec["eet"])
+    if bspec["pwt"] != "default":
+        kw["preserve_whitespace_tags"] = set(bspec["pwt"])
+    if bspec["cla"] != "default":
+        kw["multi_valued_attributes"] = None if bspec["cla"] is None else {k: set(v) for k, v in bspec["cla"].items()}
+    if bspec["dup"] is not None:
+        kw["on_duplicate_attribute"] = bspec["dup"]
+    return e["HPTB"](**kw)
+
+
+# the defaults of the HTML builder, from the documentation (not read from the live class)
+PROP_HTML_VOID = ["area", "base", "br", "col", "embed", "hr", "img", "input", "keygen", "link", "menuitem", "meta", "param", "source",
+                  "track", "wbr", "basefont", "bgsound", "command", "frame", "image", "isindex", "nextid", "spacer"]
+
+
+def builder_effective(bspec, live):
+    eet = sorted(live.empty_element_tags) if bspec["eet"] == "default" else bspec["eet"]
+    pwt = sorted(live.preserve_whitespace_tags) if bspec["pwt"] == "default" else bspec["pwt"]
+    if bspec["cla"] == "default":
+        cla = {k: sorted(v) for k, v in live.cdata_list_attributes.items()}
+    else:
+        cla = bspec["cla"] or {}
+    return eet, pwt, cla
+
+
+def o_build_tokens(nodes, eet, pwt, cla, dup):
+    """the property's reading, written independently of the model: last value wins unless 'ignore' (at the first position);
+    a missing value is ""; attributes listed for '*' or for the tag are split on whitespace; void = name in the set (or no set)"""
+    out = []
+    for n in nodes:
+        if n[0] == "S":
+            out.append(f"S 0 {ptok(n[1])}")
+            continue
+        _, name, attrs, kids = n
+        d = {}
+        for k, v in attrs:
+            v = "" if v is None else v
+            if k in d and dup == "ignore":
+                continue
+            d[k] = v
+        vals = {}
+        for k, v in d.items():
+            multi = cla and (k in cla.get("*", ()) or k in (cla.get(name) or ()))
+            vals[k] = v.split() if multi else v
+        void = eet is None or name in eet
+        out.append("T %s - %d %d %d" % (ptok(name), 1 if void else 0, 1 if name in pwt else 0, len(vals)))
+        for k, v in vals.items():
+            out.append(f"{ptok(k)} {val_tok(v)}")
+        out.append(str(len(kids)))
+        if kids:
+            out.append(o_build_tokens(kids, eet, pwt, cla, dup))
+    return " ".join(out)
+
+
+def names_tok(l):
+    return ";".join(ptok(x) for x in l) if l else "E"
+
+
+def check_build(ctx, bspec, nodes, lines, impl, metas, stream="build"):
+    e = E()
+    b = builder_for(bspec)
+    eet, pwt, cla = builder_effective(bspec, b)
+    mk = raw_markup(nodes, eet)
+    soup = e["bs4"].BeautifulSoup(mk, builder=b)
+    real = " ".join(tree_tokens(k) for k in soup.contents)
+    want = o_build_tokens(nodes, eet, pwt, cla, bspec["dup"])
+    case = {"op": "build", "builder": bspec, "nodes": nodes}
+    dupes = any(len({k for k, _ in n[2]}) < len(n[2]) for n in _all_raw(nodes))
+    ctx.case(("build", json.dumps(case, sort_keys=True)) if dupes or any(v for v in bspec.values() if v != "default") else None)
+    ctx.count("build:" + ("dupes" if dupes else "nodupes"))
+    ok = real == want
+    if not ok:
+        report(ctx, stream, "the tree built from a parse does not depend on the builder's sets/dicts and the start tag's attributes as documented",
+               case=case | {"markup": mk}, expected=want, observed=real, kf=None)
+    cla_tok = "|".join(f"{ptok(k)}={names_tok(v)}" for k, v in cla.items()) if cla else "E"
+    # one request per top-level node (the reply is one tree)
+    wrapped = ["T", "zz", [], nodes]
+    # the wrapper is not void unless there is no set at all: ask per top-level node instead
+    for n, k in zip(nodes, soup.contents):
+        lines.append(f"c15 build {'N' if eet is None else names_tok(eet)} {names_tok(pwt)} {cla_tok} {'i' if bspec['dup'] == 'ignore' else 'r'} {raw_tokens([n])}")
+        impl.append(tree_tokens(k))
+        metas.append((case, ok))
+    return soup
+
+
+def _all_raw(nodes):
+    for n in nodes:
+        if n[0] == "T":
+            yield n
+            yield from _all_raw(n[3])
+
+
+def stream_build(ctx, batch, n):
+    r = ctx.rng("build")
+    lines, impl, metas = [], [], []
+    specs = [{"eet": "default", "pwt": "default", "cla": "default", "dup": None}]
+    for v in EET_VALUES:
+        specs.append({"eet": v, "pwt": "default", "cla": "default", "dup": None})
+    for v in PWT_VALUES:
+        specs.append({"eet": "default", "pwt": v, "cla": "default", "dup": None})
+    for v in CLA_VALUES:
+        specs.append({"eet": "default", "pwt": "default", "cla": v, "dup": None})
+    for v in DUP_VALUES:
+        specs.append({"eet": "default", "pwt": "default", "cla": "default", "dup": v})
+    for _ in range(n):
+        specs.append({"eet": r.choice(EET_VALUES), "pwt": r.choice(PWT_VALUES), "cla": r.choice(CLA_VALUES), "dup": r.choice(DUP_VALUES)})
+    for bspec in specs:
+        live = builder_for(bspec)
+        eet, _, _ = builder_effective(bspec, live)
+        for _ in range(3):
+            nodes = gen_raw(r, {"eet_effective": eet}, 0, [r.randint(3, 14)])
+            if not nodes or nodes[0][0] == "S":
+                nodes = [["T", "div", [["class", "k  l"], ["id", None], ["class", "m"]], []]] + nodes
+            soup = check_build(ctx, bspec, nodes, lines, impl, metas)
+            # and the built tree through the renderer (three-way), so that the builder's sets reach the output in the comparison
+            fs = random_fmt(r)
+            recipe = {"flavour": "html", "markup": raw_markup(nodes, eet), "nodes": [], "builder": bspec}
+            for entry in ("decode", "prettify"):
+                check_render(ctx, batch, recipe, soup, (), fs, entry, "build-render")
+    rep = Driver().ask(lines)
+    for l, a, b_, (case, ok) in zip(lines, impl, rep, metas):
+        if a != b_:
+            ctx.corr_disagreements += 1
+            if ok:
+                report(ctx, "build-correspondence", "model and implementation disagree (building an element from a start tag)",
+                       case=case | {"line": l[:1500]}, observed=a, model=b_, no_failing_input=True)
+    ctx.count("build:requests", len(lines))
+
+
 def stream_corpus(ctx, batch):
     from .common import CORPUS
     d = CORPUS / "C15"
@@ -1563,6 +1762,7 @@ def run(ctx: Ctx):
     stream_render(ctx, batch, ctx.n(600, 5000))
     stream_attr_orders(ctx, batch, ctx.n(120, 800))
     stream_history(ctx, batch, ctx.n(250, 2500))
+    stream_build(ctx, batch, ctx.n(150, 1500))
     batch.flush()
     stream_call_log(ctx, ctx.n(800, 6000))
     stream_subst(ctx)
@@ -1622,6 +1822,17 @@ def replay(path):
         b = build_tree(c["recipe_b"]).decode(formatter=fa)
         print("same attributes inserted in two orders:\n ", ascii(a), "\n ", ascii(b))
         return 0 if a == b else 1
+    if op == "build":
+        b = builder_for(c["builder"])
+        eet, pwt, cla = builder_effective(c["builder"], b)
+        mk = raw_markup(c["nodes"], eet)
+        soup = E()["bs4"].BeautifulSoup(mk, builder=b)
+        real = " ".join(tree_tokens(k) for k in soup.contents)
+        want = o_build_tokens(c["nodes"], eet, pwt, cla, c["builder"]["dup"])
+        print("builder:", c["builder"], "\nmarkup:", ascii(mk))
+        print("implementation (tree tokens):", real)
+        print("property demands            :", want)
+        return 0 if real == want else 1
     if op == "history":
         import random as _random
         sc = c["scenario"]
